@@ -44,6 +44,11 @@ type Config struct {
 	Info    string `json:"info"`    // informational flag, or ""
 	Termios int    `json:"termios"` // termios variant the pty is put in before the start
 	Cache   string `json:"cache"`   // see Cache* (ignored with a cache fault)
+
+	// The certificate-cache family (cachefam.go) only.
+	CacheLoc string `json:"cache_loc,omitempty"` // see Loc*: where the cache file is
+	Missing  int    `json:"missing,omitempty"`   // directory levels on the way to it that do not exist yet
+	Umask    string `json:"umask,omitempty"`     // three octal digits: the umask the processes inherit
 }
 
 // Action kinds.
@@ -302,7 +307,7 @@ func (cs *caseSpec) validate() string {
 			}
 		case KExit:
 			exits++
-			if a.ID != ExitCtrlC && a.ID != ExitCtrlD && !isInsertExit(a.ID) && !isOneShell(a.ID) && !isLogExit(a.ID) {
+			if a.ID != ExitCtrlC && a.ID != ExitCtrlD && !isInsertExit(a.ID) && !isOneShell(a.ID) && !isLogExit(a.ID) && !isCacheExit(a.ID) {
 				return "unknown exit " + a.ID
 			}
 		default:
@@ -311,6 +316,9 @@ func (cs *caseSpec) validate() string {
 	}
 	if exits > 1 {
 		return "more than one exit action"
+	}
+	if why := cs.validateCache(); why != "" {
+		return why
 	}
 	// without a TTY is itself the fault "notty": the two must agree, so the
 	// minimiser cannot drop the item while the configuration keeps it
